@@ -184,13 +184,20 @@ WORDS = ['foo', 'bar', 'Hello', 'x1', 'b-c', 'é', 'zz top']
 
 
 def gen_tree(rng, depth=3, width=3, snippets=False, xsl=False, texts=True, empty_attrs=True, fields=False,
-             voids=True, text_nodes=True):
-    """a list of sibling nodes"""
+             voids=True, text_nodes=True, empty_texts=None):
+    """a list of sibling nodes.  empty_texts: None, or the list of "texts that print nothing" (e.g. ['', '${0}', ' ']) from which
+    a third of the text-only nodes and a few element texts are drawn"""
+    return _gen_tree(rng, depth, width, snippets, xsl, texts, empty_attrs, fields, voids, text_nodes, empty_texts)
+
+
+def _gen_tree(rng, depth, width, snippets, xsl, texts, empty_attrs, fields, voids, text_nodes, empty_texts):
     nodes = []
     for _ in range(rng.randint(1, width)):
         r = rng.random()
-        if text_nodes and texts and r < 0.08:
-            nodes.append({'name': '', 'attrs': [], 'text': _text(rng, fields), 'children': [], 'selfclose': False, 'count': 1})
+        if text_nodes and texts and r < (0.16 if empty_texts else 0.08):
+            tx = rng.choice(empty_texts) if empty_texts and rng.random() < 0.5 else _text(rng, fields)
+            nodes.append({'name': '', 'attrs': [], 'text': tx, 'children': [], 'selfclose': False,
+                          'count': rng.choice([1, 1, 1, 2]) if empty_texts else 1})
             continue
         if voids and r < 0.16:
             nm = rng.choice(VOIDS + (SNIPPET_VOID_TAGS[:2] if snippets else []))
@@ -208,9 +215,9 @@ def gen_tree(rng, depth=3, width=3, snippets=False, xsl=False, texts=True, empty
             nodes.append(node)              # resolved to a self-closing tag as long as it has no content
             continue
         if texts and rng.random() < 0.3:
-            node['text'] = _text(rng, fields)
+            node['text'] = rng.choice(empty_texts) if empty_texts and rng.random() < 0.15 else _text(rng, fields)
         if depth > 1 and rng.random() < 0.55:
-            node['children'] = gen_tree(rng, depth - 1, width, snippets, xsl, texts, empty_attrs, fields, voids, text_nodes)
+            node['children'] = _gen_tree(rng, depth - 1, width, snippets, xsl, texts, empty_attrs, fields, voids, text_nodes, empty_texts)
         if rng.random() < 0.15:
             node['count'] = rng.randint(2, 3)
         nodes.append(node)
